@@ -752,6 +752,32 @@ pub fn lemma_bijection_4() {
     vcover!(rank == 23, "cover.perm_rank_23");
 }
 
+/// C13 at environment level: the trading toggles of `Env` change the flag of the wrapped book and
+/// nothing else (queue, cache, histories, every book observable)
+pub fn env_toggle<const N: usize, const L: usize>(m: usize) {
+    let cfg = LOG1;
+    let p: Plain<N> = gen_plain::<N>(m, cfg);
+    let (book, old) = build_with_log::<N, L>(&p, cfg.ntrades);
+    let twin = build::<N, L>(&p, 0);
+    let mut env: Env<L> = Env::verif_from_book(any_u64(), book);
+    let waiting = gen_ev(m, p.tick, EV_ANY);
+    env.transactions.push(to_event(&waiting));
+    let on = any_bool();
+    if on {
+        env.enable_trading();
+    } else {
+        env.disable_trading();
+    }
+    let mut exp = p;
+    exp.trading = on;
+    vcheck!(env.order_book.verif_trading() == on, "TOGGLE.sets_the_books_flag");
+    vcheck!(snapshot_equal::<N, L>(&env.order_book, &exp, cfg.ntrades, &old, false) && sides_same(&env.order_book, &twin), "TOGGLE.changes_nothing_else_in_the_book");
+    vcheck!(env.verif_queue_len() == 1 && env.verif_queued(0) == (waiting.kind, waiting.id, waiting.np, waiting.nv) && env.trade_vols.is_empty(), "TOGGLE.queue_and_histories_untouched");
+    vcover!(on && !p.trading, "cover.re_enabled");
+    core::mem::forget(env);
+    core::mem::forget(twin);
+}
+
 pub const fn shaped(base: GenCfg, shape: [u8; 4]) -> GenCfg {
     GenCfg { shape, ..base }
 }
@@ -783,6 +809,8 @@ vharnesses! {
     fn c15_bijection_3() { lemma_bijection_3() }
     #[cfg_attr(kani, kani::unwind(6))]
     fn c15_bijection_4() { lemma_bijection_4() }
+    #[cfg_attr(kani, kani::unwind(4))]
+    fn env_toggle_m2() { env_toggle::<3, 2>(2) }
     // one submission between steps (tick symbolic 1..=10)
     #[cfg_attr(kani, kani::unwind(4))]
     fn env_submit_tick1_m2() { submit_env::<3, 2>(2, GenCfg { ntrades: 1, tick: 1, ..CFG }, ANY) }
